@@ -31,6 +31,29 @@ func genCase(t *rapid.T) arith.Case {
 		}
 	}
 	arith.FillOperands(t, &c)
+	if c.Op != "pow" && gen.Pick(t, 300, "highprec") == 1 { // (1, not 0: rapid draws the value 0 far more often than 1 in 300)
+		// Precisions in the hundreds and thousands: the larger entries of the constant tables
+		// (ln 10 is tabulated at 1, 2, 4, ... 2048 digits) and long series. Exp documents a limit
+		// of 1000 series terms, reached a little above 2200 digits, so the class stops at 2100.
+		switch gen.Pick(t, 3, "hpk") {
+		case 0:
+			c.Ctx.P = uint32(1<<uint(rapid.IntRange(6, 11).Draw(t, "hpb")) + rapid.IntRange(-4, 4).Draw(t, "hpo"))
+		case 1:
+			c.Ctx.P = uint32(rapid.IntRange(990, 1110).Draw(t, "hp1k"))
+		default:
+			c.Ctx.P = uint32(rapid.IntRange(61, 2100).Draw(t, "hpu"))
+		}
+		if c.Ctx.P > 2100 {
+			c.Ctx.P = 2100
+		}
+		c.Ctx.Emax, c.Ctx.Emin = 10000, -10000
+		c.X = core.Dec{Coeff: gen.Digits(t, 20, "hpx"), Exp: int32(rapid.IntRange(-25, 25).Draw(t, "hpe"))}
+		if c.Op == "exp" {
+			c.X.Exp = int32(rapid.IntRange(-25, 2-len(c.X.Coeff)).Draw(t, "hpee"))
+			c.X.Neg = rapid.Bool().Draw(t, "hpn")
+		}
+		return c
+	}
 	switch c.Op {
 	case "exp":
 		if gen.Pick(t, 10, "mult23") == 0 {
@@ -66,7 +89,12 @@ func genCase(t *rapid.T) arith.Case {
 			}
 		}
 	case "pow":
-		if gen.Pick(t, 10, "farbase") == 0 && !c.X.Neg {
+		if gen.Pick(t, 25, "hugeint") == 0 {
+			// a small base to a huge integer power: far outside the range in either direction
+			c.X = core.Dec{Coeff: []string{"2", "10", "5", "11", "3"}[gen.Pick(t, 5, "hb")], Exp: int32(-gen.Pick(t, 2, "hbe"))}
+			c.Y = core.Dec{Coeff: fmt.Sprint(rapid.IntRange(90000, 500000).Draw(t, "hy")), Neg: rapid.Bool().Draw(t, "hyn")}
+			c.Ctx.Emax, c.Ctx.Emin = gen.Limit, -gen.Limit
+		} else if gen.Pick(t, 10, "farbase") == 0 && !c.X.Neg {
 			// a base with a large decimal exponent and a fractional exponent: |y ln x| in the thousands
 			c.X.Exp += int32(rapid.IntRange(-9000, 9000).Draw(t, "pfar"))
 			c.Ctx.Emax, c.Ctx.Emin = gen.Limit, -gen.Limit
@@ -323,6 +351,14 @@ func check(c arith.Case, st *core.Stats) error {
 		limit = true // the true value itself sits at the package exponent limits
 	}
 	if o.Err != nil {
+		// even with an error the reported direction must be right: Overflow only for a
+		// value above the range, Underflow only for one below it
+		if o.Res.Overflow() && adjT < 0 {
+			return fmt.Errorf("%s; reported Overflow, but the true value is below 1 (in [%v, %v])", desc, en.lo, en.hi)
+		}
+		if o.Res.Underflow() && adjT > 0 {
+			return fmt.Errorf("%s; reported Underflow, but the true value is above 1 (in [%v, %v])", desc, en.lo, en.hi)
+		}
 		if limit || trueOverflows || mayOverflow || mayUnderflow {
 			st.Class("error-at-range-edge")
 			return nil
@@ -370,6 +406,12 @@ func check(c arith.Case, st *core.Stats) error {
 			return fmt.Errorf("%s; the true value overflows the range", desc)
 		}
 		return nil
+	}
+	if p > 60 {
+		st.Class("precision>60")
+		if p > 1000 {
+			st.Class("precision>1000")
+		}
 	}
 	st.NonTrivial(label)
 	// unit in the last place: lenient at powers of ten (the larger adjusted exponent)
